@@ -4,7 +4,9 @@ Part A (exhaustive): a user-defined ChangeDetector subclass that returns GIVEN c
   of {1..n-1} for n <= 7 x data vectors (small integers) x statistics {np.mean, np.median, np.max, user lambda
   (max - min)} x bounds with lower <= upper (incl. lower == upper).  Oracle (the statement): the segments between
   consecutive boundaries of [0] + changepoints + [n] whose statistic is < lower or > upper, each one its own interval,
-  adjacent ones not merged.  Cases in which a statistic lies within 1e-9 of a bound are skipped (decision margin).
+  adjacent ones not merged.  The data of part A are integers / half-integers, for which all four statistics are exact
+  in floating point, so a statistic EQUAL to a bound is a decided case (not flagged); for other data (part B) a case in
+  which a statistic lies within 1e-9 of a bound is skipped (decision margin).
 Part A' (the same changepoint subsets, one data vector, mean, bounds (-1, 1)) x the ways univariate data can be passed:
   DataFrame with column 0 / "x" / "labels", Series unnamed / named "labels", 1-D and (n,1) ndarray, int64 values,
   datetime index, RangeIndex(5, 5+n).
@@ -108,6 +110,7 @@ def represent(x, kind):
     if kind == "ndarray2d":
         return x.reshape(-1, 1).copy()
     if kind == "df:int64":
+        assert np.all(x == np.round(x)), "int64 representation needs integer values"
         return pd.DataFrame(x.astype(np.int64))
     if kind == "df:datetime":
         return pd.DataFrame(x, index=pd.date_range("2021-03-01", periods=n, freq="D"))
@@ -121,11 +124,13 @@ def expected_anomalies(x, cps, stat, lo, hi):
     """Statement of C17.  Returns (intervals, tie) - tie when some statistic is within MARGIN of a bound."""
     b = [0] + [int(c) for c in cps] + [len(x)]
     out, tie = [], False
+    xa = np.asarray(x, dtype=float)
+    exact = bool(np.all(xa * 2 == np.round(xa * 2)) and np.all(np.abs(xa) < 1e6))   # half-integers: every statistic used is exact
     for a, c in zip(b, b[1:]):
         if c <= a:
             continue
         s = float(stat(np.asarray(x[a:c], dtype=float)))
-        if abs(s - lo) <= MARGIN * (1 + abs(lo)) or abs(s - hi) <= MARGIN * (1 + abs(hi)):
+        if not exact and (abs(s - lo) <= MARGIN * (1 + abs(lo)) or abs(s - hi) <= MARGIN * (1 + abs(hi))):
             tie = True
         if s < lo or s > hi:
             out.append((a, c))
@@ -236,10 +241,10 @@ def check_case(rec, name, make_inner, x, cps, stat_name, lo, hi, rep, inp, prefi
 
 def data_vectors(rng, n, k):
     out = []
-    while len(out) < k:
+    while len(out) < k:                              # out[0] (used for the int64 representation) is integer-valued
         x = rng.integers(-3, 4, size=n).astype(float)
         if len(out) % 2 == 1:
-            x = x + rng.integers(0, 2) * 0.5         # some half-integers
+            x = x + rng.integers(0, 2, size=n) * 0.5  # some half-integers
         out.append(x)
     return out
 
@@ -308,7 +313,7 @@ def run(tier="quick", seed=0, repo="/repo"):
                     continue
                 for st in STATS:
                     for lo, hi in BOUNDS + ((-4.0, 4.0),):
-                        for rep in (("df",) if (st, lo) != ("mean", -1.0) else REPRS):
+                        for rep in (("df",) if (st, lo) != ("mean", -1.0) else [r for r in REPRS if r != "df:int64"]):
                             inp = {"part": "B", "detector": name, "x": x, "stat": st, "lower": lo, "upper": hi, "repr": rep}
                             ok, nt = check_case(rec, name, make, x, cps, st, lo, hi, rep, inp)
                             if not ok:
